@@ -274,8 +274,13 @@ class Evaluator:
             for n, v in zip(names, args):
                 env[n] = v
             p.env = env
+            n_before = len(p.effects)
             outs = self.block(h["body"], [p])
             for q in outs:
+                # an `Err(..)` built inside a helper is a value handed to the caller, not yet a diagnostic of the action
+                for e_ in q.effects[n_before:]:
+                    if e_.kind == "error" and getattr(e_, "start", None) is None and getattr(e_, "msg", None) is None:
+                        e_.kind = "err_value"
                 q.returned = False
                 keep = {k: v for k, v in q.env.items() if k.startswith("$")}
                 q.env = dict(saved)
@@ -677,15 +682,26 @@ class Evaluator:
                 cur = tmpl_concat(cur, {(("lit", part),)})
         return Str(cur)
 
+    def scrutinee_paths(self, e, p):
+        """evaluate the tested expression of an if / if let / match; it may fork (an inlined helper with several
+        exits): returns (paths that yield a value in .ret, paths that returned from the action inside it)"""
+        res = self.expr(e, p.fork())
+        return [q for q in res if not q.returned], [q for q in res if q.returned]
+
     def e_if(self, e, p):
+        cond = e["cond"]
+        live, outs = self.scrutinee_paths(cond["e"] if cond["k"] == "let_cond" else cond, p)
+        for q in live:
+            outs.extend(self.if_on(e, q, q.ret))
+        return outs
+
+    def if_on(self, e, p, c):
         cond = e["cond"]
         outs = []
         if cond["k"] == "let_cond":
-            scrut = self.ev1(cond["e"], p)
             arms = [{"pat": cond["pat"], "body": e["then"], "guard": None},
                     {"pat": {"k": "wild"}, "body": e["else"] or {"k": "block", "stmts": []}, "guard": None}]
-            return self.do_match(scrut, arms, p, self.describe(cond["e"]), e.get("line", 0))
-        c = self.ev1(cond, p)
+            return self.do_match(c, arms, p, self.describe(cond["e"]), e.get("line", 0))
         desc = getattr(c, "desc", None) or self.describe(cond)
         branches = []
         if not (isinstance(c, Bool) and c.v is False):
@@ -701,8 +717,10 @@ class Evaluator:
         return outs
 
     def e_match(self, e, p):
-        scrut = self.ev1(e["e"], p)
-        return self.do_match(scrut, e["arms"], p, self.describe(e["e"]), e.get("line", 0))
+        live, outs = self.scrutinee_paths(e["e"], p)
+        for q in live:
+            outs.extend(self.do_match(q.ret, e["arms"], q, self.describe(e["e"]), e.get("line", 0)))
+        return outs
 
     def do_match(self, scrut, arms, p, desc, line):
         outs = []
@@ -741,7 +759,9 @@ class Evaluator:
                     else:
                         self.bind_payload(pat, Obj("err"), q)
                     remaining["err"] = False
-                else:
+                else:  # wildcard / binding: whatever is left
+                    if not ((scrut.ok is not None and remaining["ok"]) or (scrut.err and remaining["err"])):
+                        take = False
                     if pat["k"] == "ident":
                         q.env[pat["name"]] = scrut
             else:
